@@ -1,10 +1,15 @@
 PROP = dict(
     coq=["Rate/RateHarness.vo"],
+    search_mult=4,
     legs=[
         dict(driver="bucket", binary="zrate", quick=900, thorough=20000, shard=60,
              monitors=["tokens_range", "rate_range", "window_bound", "penalty_honoured",
                        "five_xx_only_lowers", "success_only_raises_to_ideal"]),
-        dict(driver="mgr", binary="zrate", quick=160, thorough=1500, shard=40,
+        dict(driver="mgr", binary="zrate", quick=120, thorough=1500, shard=30,
+             monitors=["table_bounded", "lifetime_window_bound", "lifetime_penalty_honoured",
+                       "host_window_bound_across_evictions", "host_penalty_across_evictions"]),
+        # the same stream under the Go race detector (a detected race makes the driver exit 66)
+        dict(driver="mgr", binary="zrate", race=True, quick=60, thorough=400, shard=30,
              monitors=["table_bounded", "lifetime_window_bound", "lifetime_penalty_honoured",
                        "host_window_bound_across_evictions", "host_penalty_across_evictions"]),
     ],
